@@ -13,45 +13,47 @@ structure Refines (I : Impl K V) (cmp : K → K → Int) (eqV : V → V → Bool
   init_inv : Inv I.init
   init_abs : abs I.init = []
   step_ok : ∀ s op, Inv s → ∃ s' out, I.step s op = .ok (s', out) ∧ Inv s' ∧ Step cmp eqV (abs s) op out (abs s')
-  merge_ok : ∀ a b, Inv a → Inv b → ∃ c, I.merge a b = .ok c ∧ Inv c ∧ (abs c).Perm (abs a ++ abs b)
+  merge_ok : ∀ a b, Inv a → Inv b → ∃ c c', I.merge a b = .ok (c, c') ∧ Inv c ∧ Inv c' ∧
+    (abs c).Perm (abs a ++ abs b) ∧ abs c' = []
 
 theorem Refines.admittedFrom {I : Impl K V} {cmp : K → K → Int} {eqV : V → V → Bool} (R : Refines I cmp eqV) :
-    ∀ (ops : List (MOp K V)) (regs : Nat → I.σ), (∀ r, R.Inv (regs r)) → WellFormed ops →
+    ∀ (ops : List (MOp K V)) (regs : Nat → I.σ), (∀ r, R.Inv (regs r)) →
       Admitted cmp eqV (fun r => R.abs (regs r)) ops (I.runFrom regs ops) := by
   intro ops
   induction ops with
-  | nil => intro regs _ _; simp [Impl.runFrom, Admitted]
+  | nil => intro regs _; simp [Impl.runFrom, Admitted]
   | cons op ops ih =>
-    intro regs hinv hwf
-    have hwf' : WellFormed ops := fun d s h => hwf d s (List.mem_cons_of_mem _ h)
+    intro regs hinv
     cases op with
     | on r o =>
       obtain ⟨s', out, hrun, hinv', hstep⟩ := R.step_ok (regs r) o (hinv r)
       simp only [Impl.runFrom, Impl.mstep, hrun, obind, Admitted]
-      refine ⟨fun r' => R.abs (update regs r s' r'), ⟨?_, ?_⟩, ih _ ?_ hwf'⟩
+      refine ⟨fun r' => R.abs (update regs r s' r'), ⟨?_, ?_⟩, ih _ ?_⟩
       · simpa [update] using hstep
       · intro r' hr'; simp [update, hr']
       · intro r'; unfold update; split
         · exact hinv'
         · exact hinv r'
     | merge d s =>
-      have hds : d ≠ s := hwf d s (List.mem_cons_self)
-      obtain ⟨c, hrun, hinv', hperm⟩ := R.merge_ok (regs d) (regs s) (hinv d) (hinv s)
-      simp only [Impl.runFrom, Impl.mstep, hrun, obind, Admitted]
-      refine ⟨fun r' => R.abs (update (update regs d c) s I.init r'), ⟨?_, ?_, ?_⟩, ih _ ?_ hwf'⟩
-      · simpa [update, hds] using hperm
-      · simp [update, R.init_abs]
-      · intro r' h1 h2; simp [update, h1, h2]
-      · intro r'; unfold update; split
-        · exact R.init_inv
-        · split
-          · exact hinv'
-          · exact hinv r'
+      by_cases hds : d = s
+      · simp only [Impl.runFrom, Impl.mstep, hds, if_true, Admitted]
+        exact ⟨fun r => R.abs (regs r), ⟨fun _ => rfl, fun h => absurd rfl h⟩, ih regs hinv⟩
+      · obtain ⟨c, c', hrun, hinv', hinv'', hperm, hempty⟩ := R.merge_ok (regs d) (regs s) (hinv d) (hinv s)
+        simp only [Impl.runFrom, Impl.mstep, hds, if_false, hrun, obind, Admitted]
+        refine ⟨fun r' => R.abs (update (update regs d c) s c' r'), ⟨fun h => absurd h hds, fun _ => ⟨?_, ?_, ?_⟩⟩, ih _ ?_⟩
+        · simpa [update, hds] using hperm
+        · simp [update, hempty]
+        · intro r' h1 h2; simp [update, h1, h2]
+        · intro r'; unfold update; split
+          · exact hinv''
+          · split
+            · exact hinv'
+            · exact hinv r'
 
 theorem Refines.admitted {I : Impl K V} {cmp : K → K → Int} {eqV : V → V → Bool} (R : Refines I cmp eqV)
-    (ops : List (MOp K V)) (hwf : WellFormed ops) :
+    (ops : List (MOp K V)) :
     Admitted cmp eqV (fun _ => []) ops (I.run ops) := by
-  have := R.admittedFrom ops (fun _ => I.init) (fun _ => R.init_inv) hwf
+  have := R.admittedFrom ops (fun _ => I.init) (fun _ => R.init_inv)
   simpa [R.init_abs, Impl.run] using this
 
 end AlgoVerif.C04
